@@ -71,7 +71,7 @@ func vPokeItem(it vItem) {
 func VerifC14IsolationV1() {
 	depth := nd.Param("depth", 1)
 	c := vClient(false)
-	v := vspec.GenTree("a", depth, 2)
+	v := vspec.GenTree("a", depth, nd.Param("width", 2))
 	key := func() vItem { return vItem{"p": vS("k")} }
 	same := func(it vItem, id string) {
 		got, ok := it["a"]
